@@ -95,6 +95,12 @@ def run(ctx, name):
         def visit(self, tree):
             return tree
 
+        def __getattr__(self, name):
+            # something the re-compiler reads back from the rewriter after the visit: this stub recorded nothing
+            if name.startswith("__"):
+                raise AttributeError(name)
+            return {}
+
     def function_type(*a, **k):
         f = NewFn(*a, **k)
         return f
